@@ -31,8 +31,10 @@ func IsNotExist(err error) bool { return os.IsNotExist(err) }
 func OpenFile(name string, flag int, perm FileMode) (*File, error) {
 	return simfs.Cur.OpenFile(name, flag, uint32(perm))
 }
-func Open(name string) (*File, error)   { return simfs.Cur.OpenFile(name, O_RDONLY, 0) }
-func Create(name string) (*File, error) { return simfs.Cur.OpenFile(name, O_RDWR|O_CREATE|O_TRUNC, 0o666) }
+func Open(name string) (*File, error) { return simfs.Cur.OpenFile(name, O_RDONLY, 0) }
+func Create(name string) (*File, error) {
+	return simfs.Cur.OpenFile(name, O_RDWR|O_CREATE|O_TRUNC, 0o666)
+}
 func MkdirAll(p string, perm FileMode) error { return simfs.Cur.MkdirAll(p) }
 func Remove(p string) error                  { return simfs.Cur.Remove(p) }
 func RemoveAll(p string) error               { return simfs.Cur.RemoveAll(p) }
@@ -64,12 +66,11 @@ func ReadDirInfo(dir string) ([]fs.FileInfo, error) {
 	return out, nil
 }
 
-var tempSeq int
-
 // CreateTemp creates a new file in dir whose name is built from pattern (the
 // last "*" is replaced by a counter: deterministic, unlike os.CreateTemp).
 func CreateTemp(dir, pattern string) (*File, error) {
-	tempSeq++
+	simfs.Cur.TempSeq++ // per file system: a run's names do not depend on earlier runs in the process
+	tempSeq := simfs.Cur.TempSeq
 	name := pattern
 	if i := lastStar(pattern); i >= 0 {
 		name = pattern[:i] + itoa(tempSeq) + pattern[i+1:]
